@@ -47,6 +47,8 @@ pub enum Op {
     EphChain { m: u8, root: u8, k: u8 },
     /// old-to-young: allocate a young object referenced ONLY from a field of obj(root src)
     OldYoung { m: u8, src: u8, field: u8, extra: u16, via_region: bool },
+    /// MarkSweep: allocate objects of one size class from a fresh block until the block is exhausted (C35)
+    MsFill { m: u8, size: u16 },
     /// fan-in: create `n` holders all pointing at obj(root target)
     FanIn { m: u8, target: u8, holder: u8, n: u8 },
 }
